@@ -114,7 +114,7 @@ func (c *Ctx) ModelCheck(cfg *MCConfig) {
 			hi = len(all)
 		}
 		c.mcChunk(cfg, all[lo:hi], lo, rng)
-		if c.NViol() > 25 {
+		if c.NViol() > 25 || c.enoughAlready() {
 			break
 		}
 	}
